@@ -97,7 +97,12 @@ def u8Arg (s : String) : Option UInt8 := do
 
 def handle (ws : List String) : String :=
   match ws with
-  | ["open", h] => match hexArg h with | some b => openReply b | none => "bad-op"
+  -- an accepted OPEN's reply ends in the harness' iterator-protocol verdict (harness/src/common.rs
+  -- iter_protocol on parameters() / capabilities() / multiprotocol_ids()); the model's iterators are `next`
+  -- sequences whose default consumptions all observe `collect` (Rc/Lemmas/IterProto.lean): constant `ok`
+  | ["open", h] => match hexArg h with
+    | some b => let r := openReply b; if r.startsWith "ok " then r ++ " proto=ok" else r
+    | none => "bad-op"
   | ["notif", h] => match hexArg h with | some b => notifReply b | none => "bad-op"
   | ["ka", h] =>
     match hexArg h with
